@@ -76,8 +76,8 @@ def plan_C07(tier, seed):
 
 def plan_C06(tier, seed):
     if tier == "quick":
-        return with_traces(eval_plan("c06", [("DY", 1), ("DY", 2)], [], workers=6, parallel=2), "suite2020", 100)
-    return with_traces(eval_plan("c06", [("DY", 2), ("DY", 3)], [], workers=8, parallel=2), "suite2020", 500)
+        return with_traces(eval_plan("c06", [("DY", 1), ("DY", 2), ("FK", 1)], [], workers=5, parallel=3), "suite2020", 100)
+    return with_traces(eval_plan("c06", [("DY", 2), ("DY", 3), ("FK", 2)], [], workers=8, parallel=2), "suite2020", 500)
 
 
 RES_INV = ["NoPanic", "AtMostOnce", "NeverLoadsKnown", "NoReentry", "RefinesResolve", "Emit"]
@@ -267,7 +267,7 @@ def plan_C20(tier, seed):
 def plan_C14(tier, seed):
     life = tlc("c14_lifecycle", "MC_Lifecycle", {"DEV_MutateLoadedDoc": "FALSE", "MaxHist": 3 if tier == "quick" else 4},
                ["Deterministic", "Pure", "Emit"], workers=4)
-    ev = eval_jobs("c14", [("F3", 2), ("F5", 1), ("U1", 1), ("DUP", 1), ("W", 1)], "2020") + eval_jobs("c14", [("G2", 2), ("G5", 1)], "d7")
+    ev = eval_jobs("c14", [("F3", 2), ("F5", 1), ("U1", 1), ("DUP", 1), ("W", 1), ("FK", 1)], "2020") + eval_jobs("c14", [("G2", 2), ("G5", 1)], "d7")
     rs = res_jobs("c14", [("R2", 1)])
     lit = [cod_job("c14", "PO", 2, ["OrderRefines"]), cod_job("c14", "RT", 1, ["RoundTripKeepsMeaning"])]
     return dict(
